@@ -170,6 +170,14 @@ class ConcurrentExecutor(ABC, Generic[CallableType, ResultType]):
         tolerated_failure_percentage = (
             self.completion_config.tolerated_failure_percentage
         )
+        if (
+            self.completion_config.min_successful is not None
+            and tolerated_failure_count is None
+            and tolerated_failure_percentage is None
+        ):
+            # A minimum-success policy without an explicit failure tolerance keeps going
+            # until the minimum is reached or every branch has finished
+            tolerated_failure_count = len(self.executables)
 
         self.counters: ExecutionCounters = ExecutionCounters(
             len(executables),
